@@ -163,39 +163,49 @@ def reference_streams(spec, n_jobs, wd):
     return ref
 
 
-def _job(args):
+def _job(args, procs=1):
+    """One (W, seed) exploration; with procs > 1 the executions of each wave run in a process pool."""
+    from vf.explore import explore_waves
+
     W, seed, depth, max_dev, max_restarts, budget = args
     spec = mkspec(W, seed)
-    wd = os.path.join(scratch.mkdtemp("c07"), "run")
+    top = scratch.mkdtemp("c07")
+    wd = os.path.join(top, "run")
     old = os.getcwd()
     viols = {}
     n = 0
     shapes = set()
     try:
         ref = reference_streams(spec, depth + W + 2, wd)
-        # in the reference history positions (i, 1) exist only for zero-swap jobs; fill from any history lazily
 
         def fn(ch):
-            run, marks = run_one(spec, depth, max_restarts, ch, wd, budget=budget)
+            # one run directory per process
+            run, marks = run_one(spec, depth, max_restarts, ch, f"{wd}-{os.getpid()}", budget=budget)
             return run.issued, marks
 
-        for ch, res in explore(l1._guard(fn), max_dev=max_dev, free=("complete", "restart")):
-            n += 1
+        def post(ch, res):
+            rp = dict(kind="hist", W=W, seed=seed, depth=depth, budget=budget, max_restarts=max_restarts, choices=ch.choices)
             if isinstance(res, l1.Violation):
-                viols.setdefault(res.sig, (res.msg, dict(kind="hist", W=W, seed=seed, depth=depth, budget=budget,
-                                                         max_restarts=max_restarts, choices=ch.choices)))
-                continue
+                return None, [(res.sig, res.msg, rp)]
             issued, marks = res
-            shapes.add((len(issued), len(marks), tuple(m[0] for m in marks)))
-            for (o, pos) in [(i, 1) for i, r in enumerate(issued) if len(r["ens"]) == 2]:
-                pass
-            for sig, msg in judge_history(issued, marks, ref, seed):
-                viols.setdefault(sig, (msg, dict(kind="hist", W=W, seed=seed, depth=depth, budget=budget,
-                                                 max_restarts=max_restarts, choices=ch.choices)))
+            shape = (len(issued), len(marks), tuple(m[0] for m in marks))
+            return shape, [(sig, msg, rp) for sig, msg in judge_history(issued, marks, ref, seed)]
+
+        if procs > 1:
+            it = explore_waves(l1._guard(fn), post, procs, max_dev=max_dev, free=("complete", "restart"))
+        else:
+            it = (post(ch, res) for ch, res in explore(l1._guard(fn), max_dev=max_dev, free=("complete", "restart")))
+        for shape, found in it:
+            n += 1
+            if shape is not None:
+                shapes.add(shape)
+            for sig, msg, rp in found:
+                if sig not in viols or len(rp["choices"]) < len(viols[sig][1]["choices"]):
+                    viols[sig] = (msg, rp)
     finally:
         os.chdir(old)
         l1.deactivate()
-        scratch.rmtree(os.path.dirname(wd))
+        scratch.rmtree(top)
     return (W, seed), n, len(shapes), viols
 
 
@@ -208,8 +218,13 @@ def run(ctx):
     # a restart with a budget only differs from a plain one when more than one job is on record (W >= 3)
     jobs = [(W, seed, depth if W < 3 else 3, max_dev if W < 3 else 1, 2, W >= 3 or not ctx.quick) for W in (3, 2, 1) for seed in seeds
             if W < 3 or not ctx.quick or seed in (1, 7)]
-    with mp.get_context("fork").Pool(min(16, os.cpu_count() or 1)) as pool:
-        res = pool.map(_job, jobs, chunksize=1)
+    procs = min(16, os.cpu_count() or 1)
+    # the W=3 explorations are the long ones: run their waves in parallel, the others side by side
+    big = [j for j in jobs if j[0] >= 3]
+    small = [j for j in jobs if j[0] < 3]
+    res = [_job(j, procs=procs) for j in big]
+    with mp.get_context("fork").Pool(procs) as pool:
+        res += pool.map(_job, small, chunksize=1)
     n = 0
     for key, k, shapes, viols in res:
         n += k
